@@ -11,8 +11,10 @@ func emitAll(repo string) {
 	// determinism area (C08, C07): genstate.go, mapsites.go
 	emitGenState(repo)
 	emitMapSites(repo)
-	emitDetInput(repo) // detinput.go: mergeImportKey, tmplTopDecls, enumConstRule
-	emitReadSites(t)   // readsites.go: readSites (C07)
+	emitDetInput(repo)   // detinput.go: mergeImportKey, tmplTopDecls, enumConstRule
+	emitReadSites(t)     // readsites.go: readSites (C07)
+	emitFileFlagSites(t) // readsites.go: fileFlagSites (C08)
+	emitSortSites(t)     // readsites.go: sortSites (C07)
 	// C01: tmpl.go (tmplSyms, tmplHeaders)
 	emitTmpl(repo)
 	// rest area (C06): restfacts.go (restDefaultHeaders, restBodyVerbs)
